@@ -690,7 +690,10 @@ RECORDS = {   # id -> fasta text; records whose sequences are shorter than 3 bec
     "s0": ">a\nACGT\n>b\nACGA\n", "s1": ">a\nAC\n>b\nAG\n", "s2": ">a\nACGTTT\n>b\nACGAAA\n",
     "s3": ">a\nACGTAA\n>c\nACGAGG\n", "s4": ">a\nA\n>c\nC\n", "s5": ">x\nTTTT\n>y\nTTTA\n",
 }
-CONFIGS = {"3": ["s0", "s1", "s2"], "4": ["s0", "s1", "s2", "s3"], "6": ["s0", "s1", "s2", "s3", "s4", "s5"]}
+RECORDS.update({"xs0": ">a\nAC\n>b\nAG\n", "as0": ">a\nAT\n>b\nAG\n", "s0.x": ">a\nA\n>b\nG\n"})      # fail (too short); names related to "s0" by suffix / prefix
+CONFIGS = {"3": ["s0", "s1", "s2"], "4": ["s0", "s1", "s2", "s3"], "6": ["s0", "s1", "s2", "s3", "s4", "s5"],
+           # a failing input whose identifier ends with (starts with) the identifier of an input that succeeds, processed first
+           "sfx": ["as0", "xs0", "s0.x", "s0", "s2"]}     # (as0 is listed, hence processed, before s0; xs0 after it)
 MIN_LENGTH = 3
 
 
@@ -765,7 +768,9 @@ def run_apply(root, out, ids, mode, interrupt=None, real_kill=False):
             return orig(self, data=data, identifier=identifier)
         klass.main = main
         try:
-            app.apply_to(ins, logger=False)
+            # the records are handed over in the order of ``ids`` (a directory listing has no defined order)
+            by_id = {pathlib.Path(str(m.unique_id)).name[:-len(".fasta")]: m for m in ins.completed}
+            app.apply_to([by_id[i] for i in ids], logger=False)
             outcome = "return"
         except (_Interrupt, R.Kill):
             outcome = "killed"
@@ -826,7 +831,7 @@ def discover_records(cfg):
 def gen_resume(tier, seed):
     thorough = tier == "thorough"
     rnd = random.Random(seed)
-    for cfg in (("3", "4", "6") if thorough else ("3", "4")):
+    for cfg in (("3", "4", "6", "sfx") if thorough else ("3", "4", "sfx")):
         n = len(CONFIGS[cfg])
         yield [cfg, []]
         for k in range(n + 1):
@@ -1001,7 +1006,8 @@ BOUNDED = {
         "functions": ["app.composable._apply_to", "app.composable._as_completed", "app.io.write_seqs.main",
                       "app.data_store.DataStoreDirectory._write/write/write_not_completed/drop_not_completed/"
                       "__contains__/completed/not_completed"],
-        "bound": "input stores of 3 and 4 records (thorough also 6), one or two of them ending as NotCompleted; "
+        "bound": "input stores of 3 and 4 records (thorough also 6), one or two of them ending as NotCompleted, and one of 5 "
+                 "records in which three failing identifiers end / start with the identifier of a succeeding one; "
                  "load_unaligned + min_length + write_seqs into a DataStoreDirectory; interruption after every prefix of "
                  "k records, and at every external-call boundary inside every record write x {kill, OSError}; two "
                  "interruptions in a row (quick: every third pair of record boundaries, thorough: all pairs); seeded "
